@@ -1404,5 +1404,5 @@ func runC05(c *lib.Ctx) {
 	c.Ev.Coverage["triple_cases"] = nTriples
 	c.Ev.Coverage["random_cases"] = nRandom
 	c.Ev.Coverage["composite_cases_avoided_listed_construct"] = avoided
-	c.Ev.Coverage["rule"] = "cases = (operator, operand tuple); sweep = boundary grid in all pairs/singles per operator (exhaustive, seed independent); composite = all triples over a small pool for the n-ary operators + random integers/ratios up to 200 bits (constructs listed in findings/C05.json are avoided, never excused); non-trivial = some operand is a ratio or has magnitude >= 2^31; distinct by request line"
+	c.Ev.Coverage["rule"] = "cases = (operator, operand tuple); sweep (exhaustive, seed independent, may be excused by findings/C05.json) = boundary grid in all pairs/singles per operator + float-coupled comparison cells + mixed-format float cells + width-class ratio cells + representation cells (integers held in a bignum object or in a ratio object n/1); composite (never excused, listed constructs avoided) = all triples over a small pool for the n-ary operators + random integers/ratios up to 200 bits, 8 % of the integers in a non-canonical representation; non-trivial = some operand is a ratio or has magnitude >= 2^31; distinct by request line"
 }
